@@ -277,18 +277,25 @@ class SimWBEMServer:
                 plist2 = []
                 for pn, ptype, pv in typed:
                     is_array = isinstance(pv, list)
-                    if pv is None:
-                        # a NULL value carries no array-ness (and maybe no
-                        # type) on the wire: like a real server, take it
-                        # from the method declaration
+                    if pv is None or ptype is None:
+                        # a NULL value carries no array-ness, and a NULL
+                        # value, an empty array and an array starting with
+                        # NULL carry no type on the wire: like a real
+                        # server, take both from the method declaration
                         decl = self._declared_param(path, name, pn)
                         if decl is not None:
-                            is_array = decl.is_array
-                            ptype = ptype or decl.type
+                            if pv is None:
+                                is_array = decl.is_array
+                            if ptype is None:
+                                ptype = decl.type
+                                if pv is not None and ptype != 'reference':
+                                    pv = typed_value(pv, ptype)
                     plist2.append(CIMParameter(
                         pn, ptype or self.type_of(pv), value=pv,
                         is_array=is_array,
                         embedded_object=self.embedded_of(pv)))
+                rec['params'] = copy.deepcopy(
+                    [(q.name, q.type, q.value) for q in plist2])
                 rv, outp = self.f._mock_methodcall(name, path, plist2)
                 kids = []
                 if rv is not None:
